@@ -536,6 +536,47 @@ def variant_shard(dtf, N):
                         tally.violation("insert:after-resize", {**case0, "op": "insert", "time": float(dt)}, f"after insert at dt the record reads {got}, expected {exp}", exp, got)
                 except Exception as ex:
                     tally.violation(f"variant:resize:insert:exception:{type(ex).__name__}", case0, repr(ex))
+    # ---- (5) defaults and the absolute tolerance: (a) insert / select without an explicit extrapolation / interpolation use the
+    # documented 'nearest'; (b) the tolerance is absolute - a time that misses a grid point by 8e-6 (tolerance 1e-6) is off the grid
+    # however far back it lies, for scalar and tensor times alike
+    if N >= 3:
+        for pushes in (N, N + 1):
+            for mode in ("scalar", "tensor"):
+                tally.add("evaluations")
+                ra, rb = Ring(dt, N, E, pushes), Ring(dt, N, E, pushes)
+                t = float(dt) * (N - 2) + float(dt) / 4
+                targ = t if mode == "scalar" else torch.full((E,), t)
+                case = {"record": "defaults", "dt": float(dt), "N": N, "pushes": pushes, "time": t, "mode": mode}
+                try:
+                    ra.rt.insert(torch.tensor([1000.0, 1001.0]), targ, tolerance=0.0, offset=1)
+                    rb.rt.insert(torch.tensor([1000.0, 1001.0]), targ, fn.extrap_nearest, tolerance=0.0, offset=1)
+                    if ra.storage_logical() != rb.storage_logical():
+                        tally.violation(f"insert:{mode}:default-extrapolation", case, f"insert without extrap wrote {ra.storage_logical()}, with the documented default "
+                                        f"extrap_nearest {rb.storage_logical()}", rb.storage_logical(), ra.storage_logical())
+                    a = ra.rt.select(targ, tolerance=0.0, offset=1).tolist()
+                    b = ra.rt.select(targ, fn.interp_nearest, tolerance=0.0, offset=1).tolist()
+                    if a != b:
+                        tally.violation(f"select:{mode}:default-interpolation", case, f"select without interp {a}, with the documented default interp_nearest {b}", b, a)
+                except Exception as ex:
+                    tally.violation(f"defaults:exception:{type(ex).__name__}", case, repr(ex))
+                # (b) near miss far back
+                tally.add("evaluations")
+                rc = Ring(dt, N, E, pushes)
+                tm = float(dt) * (N - 2) + 8e-6
+                targ = tm if mode == "scalar" else torch.full((E,), tm)
+                case = {"record": "near miss", "dt": float(dt), "N": N, "pushes": pushes, "time": tm, "tolerance": 1e-6, "mode": mode}
+                try:
+                    rc.rt.insert(torch.tensor([1000.0, 1001.0]), targ, fn.extrap_neighbors, tolerance=1e-6, offset=1)
+                    got = rc.storage_logical()
+                    exp = [list(r) for r in rc.M]
+                    exp[(1 + N - 2) % N] = [1000.0, 1001.0]
+                    exp[(1 + N - 1) % N] = [1000.0, 1001.0]
+                    if got != exp:
+                        tally.violation(f"insert:{mode}:near-miss-snapped", case, f"a time 8e-6 off the grid (tolerance 1e-6) was not treated as off-grid: storage {got}, "
+                                        f"expected both bracketing slots written {exp}", exp, got)
+                    tally.mark("nontrivial", ("near-miss", float(dt), N, pushes, mode))
+                except Exception as ex:
+                    tally.violation(f"near-miss:exception:{type(ex).__name__}", case, repr(ex))
     # ---- (4) integer-typed time tensors (whole multiples of an integral step time): same answers as the float times
     if dt == 1:
         for pushes in (N, N + 1):
